@@ -281,7 +281,8 @@ func (d *Device) Serve() {
 					s.CloseFromDevice()
 					return
 				case "enable-reject":
-					s.Send(l + "\n% Access denied\n\n" + d.hostname() + ">")
+					// e.g. IOS without an enable secret
+					s.Send(l + "\n% No password set\n" + d.hostname() + ">")
 					continue
 				case "slow":
 					time.Sleep(time.Duration(f.Arg) * time.Second)
